@@ -41,6 +41,14 @@ def cases(rng, tier):
                 ents.append("@compute @workgroup_size(8, 2) fn %s() { }" % nm)
                 truth.append({"name": nm, "stage": "compute", "wg": [8, 2, 1]})
         out.append({"wgsl": "\n".join(ents) + "\n", "family": "names_equal_up_to_case", "opts": {}, "truth": truth, "no_obs": True})
+    # the highest location a u32 can express: the helper has to ask for 2^32 targets (the count is location + 1, beyond u32);
+    # such a module cannot be compiled in a batch, the target count is read off the text
+    big = 4294967295
+    out.append({"wgsl": "@fragment fn fs_wide() -> @location(%du) vec4<f32> { return vec4<f32>(0.0); }\n" % big, "family": "location_u32_max",
+                "opts": {}, "truth": [{"name": "fs_wide", "stage": "fragment", "targets": big + 1}], "no_obs": True})
+    out.append({"wgsl": "struct O { @location(0) a: vec4<f32>, @location(%du) b: vec4<f32>, @builtin(frag_depth) d: f32 }\n"
+                        "@fragment fn fs_w2() -> O { var o: O; return o; }\n" % big, "family": "location_u32_max",
+                "opts": {}, "truth": [{"name": "fs_w2", "stage": "fragment", "targets": big + 1}], "no_obs": True})
     return out
 
 
